@@ -20,12 +20,12 @@ func checkC13(p *Prog, r *Report) {
 	ls := BuildLockset(p, "spine", "model")
 	r.Rule("R1", "the message counter is accessed only through sync/atomic")
 	for _, v := range guardTable(ls) {
-		if v.Key != "Sender.msgNum" {
+		if v.Key != F("Sender.msgNum") {
 			continue
 		}
 		r.Check("R1", "field:Sender.msgNum", v.Atomic && len(v.Deviants) == 0, "", fmt.Sprintf("%d accesses, atomic=%v, non-atomic accesses=%d", v.NAcc, v.Atomic, len(v.Deviants)))
 	}
-	if len(ls.Accesses["Sender.msgNum"]) == 0 {
+	if len(ls.Accesses[F("Sender.msgNum")]) == 0 {
 		r.Undecided("R1", "field:Sender.msgNum", "", "no access to the counter field found")
 	}
 	r.Rule("R2", "every header builder of the sender obtains its MsgCounter from its own call of the counter function (an atomic add on the counter), one call per datagram")
@@ -37,7 +37,7 @@ func checkC13(p *Prog, r *Report) {
 	r.Rule("R5", "no mutating call on the notify cache and no write to the request cache happens while only a read lock is held")
 	c13RWMode(p, ls, r)
 	r.Rule("R6", "in Request the look-up of an unanswered identical request, the transmission and the cache insertion share one critical section of a lock held at every insertion site; the insertion happens only on the transmit-succeeded edge")
-	absenceThenInsert(p, ls, r, "R6", "Sender.reqMsgCache", true, 1)
+	absenceThenInsert(p, ls, r, "R6", F("Sender.reqMsgCache"), true, 1)
 	c13Request(p, ib, ls, r)
 	r.Rule("R7", "the insertion into the request cache is preceded by an eviction guarded by a constant bound; every inbound message with a msgCounterReference clears it from the cache before the command is processed")
 	c13Bounded(p, ib, ls, r)
@@ -76,7 +76,7 @@ func counterCall(p *Prog, v ssa.Value) *ssa.Call {
 				ok = false
 				for _, s := range p.Sources(ret.Results[0], false) {
 					if s.Kind == "call" && strings.HasPrefix(s.Desc, "sync/atomic.Add") {
-						if call, isCall := s.Val.(*ssa.Call); isCall && len(call.Call.Args) > 0 && strings.HasSuffix(Path(call.Call.Args[0]), ".msgNum") {
+						if call, isCall := s.Val.(*ssa.Call); isCall && len(call.Call.Args) > 0 && strings.HasSuffix(Path(call.Call.Args[0]), "."+FN("Sender.msgNum")) {
 							ok = true
 						}
 					}
@@ -209,7 +209,7 @@ func c13Notify(p *Prog, ib *inbound, ls *Lockset, r *Report) {
 	fn := impls[0]
 	base := FnName(fn)
 	var put *ssa.Call
-	for _, a := range ls.accessesIn("Sender.datagramNotifyCache", fn) {
+	for _, a := range ls.accessesIn(F("Sender.datagramNotifyCache"), fn) {
 		if a.Kind == "CW" {
 			put, _ = a.Ins.(*ssa.Call)
 		}
@@ -269,7 +269,7 @@ func derefValue(v ssa.Value) ssa.Value {
 
 func c13RWMode(p *Prog, ls *Lockset, r *Report) {
 	n := 0
-	for _, key := range []string{"Sender.datagramNotifyCache", "Sender.reqMsgCache"} {
+	for _, key := range []string{F("Sender.datagramNotifyCache"), F("Sender.reqMsgCache")} {
 		for _, a := range ls.Accesses[key] {
 			if a.Ctor {
 				continue
@@ -290,7 +290,7 @@ func c13RWMode(p *Prog, ls *Lockset, r *Report) {
 			k := fmt.Sprintf("field:%s|fn:%s|%s", key, FnName(originOf(a.Fn)), a.Kind)
 			if a.Write() {
 				// a write needs some lock of the sender held in write mode that is the field's guard (C17 names it); here: not only read locks
-				r.Check("R5", k, !(readOnly && !lockIsGuardInWriteMode(a)), p.InstrPos(a.Ins), fmt.Sprintf("%s access with locks %s", a.Kind, a.Locks))
+				r.Check("R5", k, !(readOnly && !lockIsGuardInWriteMode(ls, key, a)), p.InstrPos(a.Ins), fmt.Sprintf("%s access with locks %s", a.Kind, a.Locks))
 			} else {
 				r.Pass("R5", k, p.InstrPos(a.Ins), fmt.Sprintf("%s access with locks %s", a.Kind, a.Locks))
 			}
@@ -303,9 +303,10 @@ func c13RWMode(p *Prog, ls *Lockset, r *Report) {
 }
 
 // lockIsGuardInWriteMode: the lock conventionally guarding the cache (mux*Cache) is held in write mode.
-func lockIsGuardInWriteMode(a Access) bool {
+func lockIsGuardInWriteMode(ls *Lockset, key string, a Access) bool {
+	g := guardOfField(ls, key)
 	for name, h := range a.heldOnSameObject() {
-		if strings.HasSuffix(name, "Cache") && !h.Read {
+		if g != "" && name == g && !h.Read {
 			return true
 		}
 	}
@@ -320,7 +321,7 @@ func c13Request(p *Prog, ib *inbound, ls *Lockset, r *Report) {
 	}
 	fn := impls[0]
 	base := FnName(fn)
-	ff := ls.Facts("Sender.reqMsgCache")
+	ff := ls.Facts(F("Sender.reqMsgCache"))
 	ips := ff.insertPoints(fn)
 	rps := ff.readPoints(fn)
 	tx := transmitCalls(p, fn)
@@ -361,12 +362,12 @@ func c13Request(p *Prog, ib *inbound, ls *Lockset, r *Report) {
 }
 
 func c13Bounded(p *Prog, ib *inbound, ls *Lockset, r *Report) {
-	ff := ls.Facts("Sender.reqMsgCache")
+	ff := ls.Facts(F("Sender.reqMsgCache"))
 	for _, a := range ff.insAcc {
 		fn := a.Fn
 		okEvict := false
 		desc := ""
-		for _, d := range ls.accessesIn("Sender.reqMsgCache", fn) {
+		for _, d := range ls.accessesIn(F("Sender.reqMsgCache"), fn) {
 			call, ok := d.Ins.(*ssa.Call)
 			if !ok || builtinName(&call.Call) != "delete" {
 				continue
@@ -433,7 +434,7 @@ func c13Bounded(p *Prog, ib *inbound, ls *Lockset, r *Report) {
 	// the clear operation deletes exactly the referenced counter
 	for _, fn := range p.ImplsOf(ib.sender, "ProcessResponseForMsgCounterReference") {
 		ok := false
-		for _, d := range ls.accessesIn("Sender.reqMsgCache", fn) {
+		for _, d := range ls.accessesIn(F("Sender.reqMsgCache"), fn) {
 			if call, isCall := d.Ins.(*ssa.Call); isCall && builtinName(&call.Call) == "delete" {
 				ok = strings.HasPrefix(Path(call.Call.Args[1]), "param:")
 			}
